@@ -716,6 +716,11 @@ class Evaluator:
                 if tn not in kinds:
                     raise AnalysisError(f'isinstance test against unmodelled type {tn}')
                 return isinstance(v, kinds[tn])
+            if isinstance(f, ast.Name) and f.id == 'issubclass' and len(e.args) == 2 and 'issubclass' not in self.intrinsics:
+                a0, a1 = self.expr(e.args[0], env), self.expr(e.args[1], env)
+                if isinstance(a0, type) and (isinstance(a1, type) or (isinstance(a1, tuple) and all(isinstance(x, type) for x in a1))):
+                    return issubclass(a0, a1)  # model classes supplied by the rule
+                raise AnalysisError(f'issubclass on unmodelled values in `{text(e)[:50]}`')
             args = []
             for a in e.args:
                 if isinstance(a, ast.Starred):
@@ -837,6 +842,18 @@ class Record:
 class Obj(Record):
     """A record that models its object completely: reading an attribute it does not have
     raises AttributeError in the evaluated program (for Record it is an analysis error)."""
+
+
+class Loose(Record):
+    """A collaborator the rule does not look at: whatever method the evaluated code calls on it is a
+    no-op that returns None (change notifications, cache invalidation hooks)."""
+
+    def __getattr__(self, name):
+        if name.startswith('__'):
+            raise AttributeError(name)
+        if name in ('get', 'keys', 'items', 'values', 'pop', 'index', 'count', 'copy'):
+            raise AnalysisError(f'the evaluated code reads `{name}` of a collaborator the rule does not model')
+        return lambda *a, **k: None
 
 
 def compared_constants(fn, kinds=(int, str, bytes)):
